@@ -20,8 +20,29 @@ Definition resp_eqb (a b : cresp) : bool :=
   | COther x, COther y => N.eqb x y
   | _, _ => false
   end.
+(** the statistics of /compute-with-stats: the ranking lists the top-scored peers — at most numLeaders of
+    them (all peers when absent or 0), at least as many as there are positive scores up to that bound (a
+    score that is positive after the discount was positive before it), each peer once.  The order is not
+    claimed here: the response carries discounted scores, the ranking is over the undiscounted iterate. *)
+Fixpoint nodupb (l : list nat) : bool :=
+  match l with [] => true | a :: t => negb (existsb (Nat.eqb a) t) && nodupb t end.
+Definition stats_ok (q : creq) (rc : cresp) (so : option cstats) : bool :=
+  match rc, so with
+  | C200 sz es, Some s =>
+      let ents := to_ents es in
+      let n := Z.to_nat sz in
+      let nl := match cq_nl q with Some k => if (0 <? k)%Z then Z.to_nat k else n | None => n end in
+      let nonzero := length (filter (fun e : nat * float => PrimFloat.ltb 0 (snd e)) ents) in
+      let r := map N.to_nat (cs_ranking s) in
+      (length r <=? Nat.min nl n)
+      && (match cq_mx q, cq_mn q, cq_fq q with None, None, None => Nat.min nl nonzero <=? length r | _, _, _ => true end)   (* default schedule: at least one check took place *)
+      && nodupb r
+      && forallb (fun i => i <? n) r
+  | _, _ => true
+  end.
 Definition holds (c : case) : bool :=
   match c with
   | ComputeReq setup q rc rs so =>
       resp_eqb rc rs && resp_matches (oapi_spec 1500 default_eps (put_all setup) (to_req q)) rc
+      && stats_ok q rs so
   end.
